@@ -449,7 +449,7 @@ theorem grid_arg (ph a : Nat) (c o : Int) :
 /-- at integer centres and offsets the rounded window corners are exact and `ph` apart -/
 theorem sliceBounds_int (ph : Nat) (c o : Int) :
     sliceBounds ph (c : Rat) (o : Rat) = (c + o - ((ph / 2 : Nat) : Int), c + o - ((ph / 2 : Nat) : Int) + (ph : Int)) := by
-  simp only [sliceBounds, lo_arg, hi_arg, roundHalfEven_intCast]
+  simp only [sliceBounds, lo_arg, roundHalfEven_intCast]
 
 
 theorem intCast_lt_zero_iff (x : Int) : (x : Rat) < 0 ↔ x < 0 := by
@@ -641,19 +641,32 @@ theorem roundHalfEven_add_int (x : Rat) (n : Int) (h : NoTie x) :
       grind
     rw [if_pos h2, if_pos h2]; omega
 
-/-- away from rounding ties the two rounded corners of a window are exactly `ph` apart -/
-theorem sliceBounds_consistent (ph : Nat) (ctr off : Rat)
+/-- away from rounding ties the two rounded corners of the ORIGINAL computation are exactly `ph` apart: there the
+original and the repaired bounds coincide -/
+theorem sliceBoundsCoded_eq (ph : Nat) (ctr off : Rat)
     (h : NoTie (ctr + halfPixel ph + off + -halfExt ph)) :
-    (sliceBounds ph ctr off).2 = (sliceBounds ph ctr off).1 + ph := by
-  simp only [sliceBounds]
+    sliceBoundsCoded ph ctr off = sliceBounds ph ctr off := by
+  simp only [sliceBoundsCoded, sliceBounds]
   have e : ctr + halfPixel ph + off + halfExt ph = (ctr + halfPixel ph + off + -halfExt ph) + ((ph : Int) : Rat) := by
     simp only [halfExt, Rat.intCast_natCast]; grind
   rw [e, roundHalfEven_add_int _ _ h]
 
+/-- REFUTATION of the original rounding of both corners: at the half-integer centre 5/2 with the odd extent 3 the
+two rounded corners are 2 apart, not 3 (the slice assignment then raises ValueError: genuine defect, repaired by
+notes/fixes/C13-slice-rounding-tie.diff) -/
+theorem sliceBoundsCoded_tie : (sliceBoundsCoded 3 (5/2) 0).2 ≠ (sliceBoundsCoded 3 (5/2) 0).1 + 3 := by decide +kernel
+
+/-- the window of the slicing path always has the patch extent (the high corner is derived from the low one) -/
+theorem sliceBounds_consistent (ph : Nat) (ctr off : Rat) :
+    (sliceBounds ph ctr off).2 = (sliceBounds ph ctr off).1 + ph := rfl
+
+theorem consistent_all (ph pw : Nat) (ctr off : Pt) : Consistent ph pw ctr off :=
+  ⟨sliceBounds_consistent ph _ _, sliceBounds_consistent pw _ _⟩
+
 theorem consistent_of_noTie (ph pw : Nat) (ctr off : Pt)
-    (h1 : NoTie (ctr.1 + halfPixel ph + off.1 + -halfExt ph))
-    (h2 : NoTie (ctr.2 + halfPixel pw + off.2 + -halfExt pw)) : Consistent ph pw ctr off :=
-  ⟨sliceBounds_consistent ph _ _ h1, sliceBounds_consistent pw _ _ h2⟩
+    (_h1 : NoTie (ctr.1 + halfPixel ph + off.1 + -halfExt ph))
+    (_h2 : NoTie (ctr.2 + halfPixel pw + off.2 + -halfExt pw)) : Consistent ph pw ctr off :=
+  consistent_all ph pw ctr off
 
 
 /-- PROPERTY (slicing path, any centres away from rounding ties): never raises, shape
@@ -671,6 +684,19 @@ theorem slicing_patch_layout {α : Type} (pix : NDArr α) (C H W : Nat) (hshape 
                             ((sliceLo ph pw (getPt centres i) (getPt (offsets.getD [(0, 0)]) j)).2 + q) cval) :=
   extractSlice_spec pix C H W hshape centres ph pw offsets cval
     (fun i j hi hj => consistent_of_noTie ph pw _ _ (hnt i j hi hj).1 (hnt i j hi hj).2)
+
+/-- PROPERTY (patch shape, slicing path, EVERY centre - rounding ties included): the slicing path never raises and
+returns shape `(centres, offsets, C, ph, pw)` for every channel count; every element is the source pixel of its window
+position (window low corner = the rounded low corner), the fill value outside the image -/
+theorem slicing_patch_layout_all {α : Type} (pix : NDArr α) (C H W : Nat) (hshape : pix.shape = [C, H, W])
+    (centres : List Pt) (ph pw : Nat) (offsets : Option (List Pt)) (cval : α) :
+    ∃ out, extractSlice pix centres ph pw offsets cval = .ok out ∧
+      out.shape = [centres.length, (offsets.getD [(0, 0)]).length, C, ph, pw] ∧
+      ∀ i j c r q, inRange [centres.length, (offsets.getD [(0, 0)]).length, C, ph, pw] [i, j, c, r, q] = true →
+        out.get? [i, j, c, r, q] =
+          some (pixAt pix c ((sliceLo ph pw (getPt centres i) (getPt (offsets.getD [(0, 0)]) j)).1 + r)
+                            ((sliceLo ph pw (getPt centres i) (getPt (offsets.getD [(0, 0)]) j)).2 + q) cval) :=
+  extractSlice_spec pix C H W hshape centres ph pw offsets cval (fun _ _ _ _ => consistent_all ph pw _ _)
 
 /-- `Image.crop` is the bounds decision followed by the translation warp -/
 theorem crop_eq {α : Type} (v : Variant) (pix : NDArr α) (mn mx : List Rat) (constrain : Bool) (zero : α)
@@ -753,6 +779,9 @@ example : ((extractSlice exImg [(2, 3), (0, 0)] 3 2 none (-1)).toOption.map fun 
 example : extractSlice exImg [(2, 3), (0, 0)] 3 2 none (-1) =
     extractSampling0c .repaired exImg [(2, 3), (0, 0)] 3 2 none (-1) := by decide +kernel
 example : extractSampling0c .coded exImg [(2, 3), (0, 0)] 3 2 none (-1) = .error .value := by decide +kernel
+-- a half-integer centre with an odd extent (the audit's case): a full (3, 2) window, rows 2..4
+example : ((extractSlice exImg [(5/2, 3)] 3 2 none 0).toOption.map fun p => (p.shape, p.data)) =
+    some ([1, 1, 2, 3, 2], [16, 17, 23, 24, 30, 31, 58, 59, 65, 66, 72, 73]) := by decide +kernel
 example : NoTie (27/10 + halfPixel 3 + 0 + -halfExt 3) := by unfold NoTie; decide +kernel
 example : ¬ NoTie (5/2 + halfPixel 3 + 0 + -halfExt 3) := by unfold NoTie; decide +kernel
 
